@@ -57,6 +57,10 @@ type Exec struct {
 	loopExits    []*State
 	curWatch     []watchTerm
 	owned        map[string]types.Type
+	curPos       token.Pos
+	specDepth    int
+	lockAccesses int
+	lockViolations []string
 	escaped      map[string]bool
 }
 
@@ -272,6 +276,7 @@ func (x *Exec) stmtM(s ast.Stmt, st *State) (out []*State) {
 }
 
 func (x *Exec) stmt(s ast.Stmt, st *State) (out *State) {
+	x.curPos = s.Pos()
 	defer func() {
 		if r := recover(); r != nil {
 			if _, ok := r.(deadPanic); ok {
